@@ -38,6 +38,8 @@ func main() {
 		if len(res.Missed) > 0 || len(res.FalseFire) > 0 {
 			os.Exit(1)
 		}
+	case "summary":
+		props.DebugSummary(os.Args[2:])
 	case "list":
 		ids := props.IDs()
 		sort.Strings(ids)
